@@ -44,6 +44,12 @@ def tree_hash(repo=None):
         h.update(("%d:%d" % (st.st_size, int(st.st_mtime))).encode())
     except OSError:
         pass
+    try:
+        # the extraction flags (cfg of the verification hooks, opt level) are part of what a cached fact file means
+        with open(os.path.join(VERIF, "bin", "extract.sh"), "rb") as fh:
+            h.update(fh.read())
+    except OSError:
+        pass
     return h.hexdigest()[:24]
 
 
